@@ -24,7 +24,7 @@ type stage struct {
 var (
 	durAlpha    = []time.Duration{0, 700 * time.Millisecond, time.Second, 3 * time.Second}
 	targetAlpha = []int{0, 1, 2, 7, 100}
-	t0          = time.Date(2024, 3, 1, 12, 0, 0, 0, time.UTC)
+	t0          = time.Date(2024, 3, 1, 12, 0, 0, 750_000_123, time.UTC) // not aligned to a second (or a millisecond)
 )
 
 func stagesString(l []stage) string {
